@@ -363,7 +363,10 @@ static inline int is_chunked_ctl_char(const unsigned char c) {
  * @returns 1 if it looks valid, 0 if it looks invalid
  */
 static inline int data_probe_chunk_length(htp_connp_t *connp) {
-    if (connp->out_current_read_offset - connp->out_current_consume_offset < 8) {
+    // The beginning of the line may have been buffered by an earlier call.
+    size_t buffered = (connp->out_buf != NULL) ? connp->out_buf_size : 0;
+
+    if (buffered + (size_t) (connp->out_current_read_offset - connp->out_current_consume_offset) < 8) {
         // not enough data so far, consider valid still
         return 1;
     }
@@ -372,6 +375,22 @@ static inline int data_probe_chunk_length(htp_connp_t *connp) {
     size_t len = connp->out_current_read_offset - connp->out_current_consume_offset;
 
     size_t i = 0;
+    while (i < buffered) {
+        unsigned char c = connp->out_buf[i];
+
+        if (is_chunked_ctl_char(c)) {
+            // ctl char, still good.
+        } else if (isdigit(c) || (c >= 'a' && c <= 'f') || (c >= 'A' && c <= 'F')) {
+            // real chunklen char
+            return 1;
+        } else {
+            // leading junk, bad
+            return 0;
+        }
+        i++;
+    }
+
+    i = 0;
     while (i < len) {
         unsigned char c = data[i];
 
